@@ -12,9 +12,13 @@ CONSTANTS
   MaxForeign = 2
   MaxLate = 2
   QuorumSet = {"One", "N2", "Maj", "All"}
-  Triples = {{1, 2, 13}, {1, 2, 3}, {13, 14, 15}, {13, 16, 17}, {4, 5, 9}, {13, 14, 1}}
+  Triples = {{1, 2, 13}, {1, 2, 3}, {13, 14, 15}, {13, 16, 17}, {4, 5, 9}, {13, 14, 1}, {4, 6, 19}, {4, 5, 19}, {4, 20, 19}}
   SplitSizes = {2}
   AllCfgs = TRUE
+  IsRegSet = {FALSE, TRUE}
+  EhSet = {0, 1, 2}
+  MaxCancel = 2
+  MaxRepliesC = 10
   Record = TRUE
   KnownMask = {"C05-merge-bypasses-target", "C05-mixed-kinds-first-record-dictates", "C05-equal-counter-scratchpad-first-wins"}
 INVARIANTS NoClauseFalsified Emit
